@@ -75,6 +75,7 @@ struct ByteJob {
 fn answer_sig(a: &Answer, class: &str) -> Option<(String, String)> {
     match a {
         Answer::Panic(p) => Some((format!("C01/panic/{}", panic_site(p)), p.chars().take(300).collect())),
+        Answer::Died(st) if st.contains(crate::worker::WALL_BACKSTOP) => Some(("MACHINERY/worker-wall-clock-backstop".to_string(), st.clone())),
         Answer::Died(st) => Some((format!("C01/process-died/{class}"), st.clone())),
         Answer::Ok(_) => None,
     }
